@@ -141,6 +141,79 @@ MP='container/iterable/map.go'
 ben('map-no-pool',['C10','C11','C08','C09'],MP,
  '''	rliNew := im.pool.Get().(*rlItem[K, V])''','''	rliNew := &rlItem[K, V]{}''','nodes are allocated instead of taken from the pool')
 
+# ---- rounds 5-6: variants probing the newer monitors
+ben('expirable-retries-up-to-three-times',['C08','C09','C11'],'container/lru/expirable.go',
+ '''	if v.GetExpiresAt().Before(now) {
+		// remove from cache
+		p.Remove(k)
+		// call get or create again to add new version of the item
+		return p.Cache.GetOrCreate(k)
+	}
+
+	return v, nil''','''	for i := 0; i < 3 && v.GetExpiresAt().Before(now); i++ {
+		// remove from cache
+		p.Remove(k)
+		// call get or create again to add new version of the item
+		if v, err = p.Cache.GetOrCreate(k); err != nil {
+			return v, err
+		}
+	}
+
+	return v, nil''','a stale replacement is replaced again, up to three rounds (the statement does not fix the number of rounds)')
+ben('redis-wait-last-sleep-ends-at-deadline',['C07','C06','C03'],R,
+ '''		tmr := time.NewTimer(timeout)
+		select {''','''		if dl, ok := ctx.Deadline(); ok && time.Until(dl) < timeout {
+			timeout = time.Until(dl) + time.Millisecond
+		}
+		tmr := time.NewTimer(timeout)
+		select {''','the last poll sleep is cut to the context deadline; the context error is still only returned once the context is done')
+ben('redis-put-set-and-pexpireat-in-multi',['C02','C03','C06','C07'],R,
+ '''	_, err := c.rdb.Set(ctx, rKey(record.Key), buf, expiration(record.ExpiresAt, time.Now())).Result()
+	return record, checkErr(err)''','''	if record.ExpiresAt == nil {
+		_, err := c.rdb.Set(ctx, rKey(record.Key), buf, 0).Result()
+		return record, checkErr(err)
+	}
+	ttl := expiration(record.ExpiresAt, time.Now())
+	_, err := c.rdb.TxPipelined(ctx, func(pipe redis.Pipeliner) error {
+		pipe.Set(ctx, rKey(record.Key), buf, 0)
+		pipe.PExpire(ctx, rKey(record.Key), ttl)
+		return nil
+	})
+	return record, checkErr(err)''','Put with an expiry = SET + PEXPIRE inside MULTI/EXEC (still one atomic step)')
+ben('renewal-ctx-timeout-half-lease',['C05','C01','C04'],K,
+ '''	future := l.future.Load().(timeout.Future)
+	r, err := l.dlp.Storage.CasByVersion(context.Background(), kvs.Record{''','''	future := l.future.Load().(timeout.Future)
+	rctx, rcancel := context.WithTimeout(context.Background(), l.dlp.leaseTTL/2)
+	defer rcancel()
+	r, err := l.dlp.Storage.CasByVersion(rctx, kvs.Record{''','the renewal call gives up after half a lease (by then the lease is lost anyway)')
+ben('lockwithctx-wraps-context-error',['C04','C01','C05'],K,
+ '''	atomic.StoreInt32(&l.lckCntr, 0)
+	l.lockCh <- true
+	return err
+}''','''	atomic.StoreInt32(&l.lckCntr, 0)
+	l.lockCh <- true
+	return fmt.Errorf("kvsLock.lockWithCtx(): could not acquire %s: %w", l.key, err)
+}''','the error of a failed LockWithCtx is wrapped (errors.Is still finds the context error)')
+ben('timeout-add-always-pokes',['C12','C13','C05'],T,
+ '''	if cc.watchers == 0 {
+		cc.watchers++
+		go cc.watcher()
+	} else {
+		cc.notifyWatcher()
+	}''','''	if cc.watchers == 0 {
+		cc.watchers++
+		go cc.watcher()
+	}
+	cc.notifyWatcher()''','add pokes the wake channel also when it has just started the first worker')
+ben('inmem-getlive-compares-unix-milli',['C06','C03','C07','C02'],I,
+ '''	if r.ExpiresAt != nil && r.ExpiresAt.Before(now) {
+		delete(s.recs, key)
+		s.notifyWaiters(key)
+		return kvs.Record{}, false''','''	if r.ExpiresAt != nil && r.ExpiresAt.UnixMilli() < now.UnixMilli() {
+		delete(s.recs, key)
+		s.notifyWaiters(key)
+		return kvs.Record{}, false''','liveness compared in wall-clock milliseconds (no overflow before the year 292 million)')
+
 def main():
     wt='/tmp/mkben-wt'
     subprocess.run(['git','-C','/repo','worktree','remove','--force',wt],capture_output=True)
